@@ -32,13 +32,16 @@ Lemma thread_step_move bs th bs' th' :
 Proof.
   destruct th as [prog pc iter|u i b]; cbn [thread_step next_move].
   - destruct (nth_error prog pc) as [[d|u i|d]|]; try discriminate.
-    + destruct (box_step bs d TS) as [bs1|] eqn:E; try discriminate.
+    + destruct (at_gate (spc_of bs d)); try discriminate.
+      destruct (box_step bs d TS) as [bs1|] eqn:E; try discriminate.
       destruct (sender_waits (spc_of bs1 d)).
       * intros H; inversion H; subst. eauto.
       * destruct (advance prog pc iter). intros H; inversion H; subst. eauto.
-    + destruct (box_step bs u (TR i)) as [bs1|] eqn:E; try discriminate.
+    + destruct (iter <? nread_of bs u i); try discriminate.
+      destruct (box_step bs u (TR i)) as [bs1|] eqn:E; try discriminate.
       intros H; inversion H; subst. eauto.
-    + destruct (box_step bs d TS) as [bs1|] eqn:E; try discriminate.
+    + destruct (at_send (spc_of bs d)); try discriminate.
+      destruct (box_step bs d TS) as [bs1|] eqn:E; try discriminate.
       destruct (sender_waits (spc_of bs1 d)).
       * intros H; inversion H; subst. eauto.
       * destruct (advance prog pc iter). intros H; inversion H; subst. eauto.
